@@ -1,6 +1,7 @@
 package main
 
 import (
+	"encoding/json"
 	"flag"
 	"fmt"
 	"os"
@@ -24,6 +25,19 @@ func main() {
 		os.Exit(cmdCheck(os.Args[2:]))
 	case "replay":
 		os.Exit(cmdReplay(os.Args[2:]))
+	case "bind":
+		// record the variable names of all functions under contract (run on the unchanged tree, see sync_contracts.sh)
+		env, err := vc.Load("/repo", "/verif/contracts")
+		if err != nil {
+			fmt.Fprintln(os.Stderr, err)
+			os.Exit(2)
+		}
+		b, _ := json.MarshalIndent(env.RecordBindings(), "", " ")
+		if err := os.WriteFile("/verif/contracts/bindings.json", b, 0o644); err != nil {
+			fmt.Fprintln(os.Stderr, err)
+			os.Exit(2)
+		}
+		fmt.Println("recorded bindings of", len(env.RecordBindings()), "functions")
 	case "selftest":
 		os.Exit(cmdSelftest(os.Args[2:]))
 	default:
